@@ -35,7 +35,7 @@ import (
 type bounds struct {
 	ArgValues  int // values per argument (0 = the full domain)
 	Amounts    []string
-	NTokens    int // token selectors per method (prefix of tokenSelsFor)
+	NTokens    int   // token selectors per method (prefix of tokenSelsFor)
 	CapCand    int   // candidates per (base, method, sender) group before send-time filtering
 	CapAcc     []int // accepted sends executed per group, by regime
 	Encodings  []bool
@@ -50,7 +50,7 @@ type bounds struct {
 
 func boundsFor(tier string) bounds {
 	if tier == "thorough" {
-		return bounds{ArgValues: 0, Amounts: amountSels, NTokens: len(tokenSels), CapCand: 8192, CapAcc: []int{12, 12, 12, 12, 48}, Encodings: []bool{true, true, true, true, true},
+		return bounds{ArgValues: 0, Amounts: amountSels, NTokens: len(tokenSels), CapCand: 8192, CapAcc: []int{16, 16, 16, 16, 64}, Encodings: []bool{true, true, true, true, true},
 			Bases: []string{"genesis", "entries", "matured"}, AllActors: true, Depth2: true, Depth2CapA: 2, Depth2CapB: 2, Weights: []int{3, 3, 5, 5, 12}}
 	}
 	// quick: the method code is the same in every regime (only the table lookup and two liquidity branches read the spork
@@ -243,22 +243,23 @@ func product(dims []int) int {
 	return p
 }
 
-// shrink drops the last value of the largest argument dimension (ties: the last argument); the amount and token
-// dimensions (the last two) are only cut when every argument is down to one value. false when nothing can be dropped.
+// shrink drops the last value of a dimension: first the token dimension (the last one) down to the method's natural
+// token, then the largest argument dimension (ties: the last argument), the amount dimension only when everything else is
+// down to one value. false when nothing can be dropped.
 func shrink(dims []int) bool {
-	best := -1
 	na := len(dims) - 2
+	if dims[na+1] > 1 {
+		dims[na+1]--
+		return true
+	}
+	best := -1
 	for i, d := range dims[:na] {
 		if d > 1 && (best < 0 || d >= dims[best]) {
 			best = i
 		}
 	}
-	if best < 0 {
-		for i := len(dims) - 1; i >= na; i-- {
-			if dims[i] > 1 && (best < 0 || dims[i] > dims[best]) {
-				best = i
-			}
-		}
+	if best < 0 && dims[na] > 1 {
+		best = na
 	}
 	if best < 0 {
 		return false
